@@ -1476,6 +1476,10 @@ void Executor<OptionsTy>::go() {
     } else {
       this->calculateWindow(false);
 
+      // nextWindow() resets the counters that calculateWindow() sums up over
+      // all threads
+      barrier.wait();
+
       this->pushNextWindow(tld.wlnext, local.nextWindow());
     }
   }
